@@ -133,6 +133,12 @@ var privProbes = []privProbe{
 	{Name: "send-chat", Needs: []int{rp.PSendChat}, Silent: true, Build: func(k int, e *c05Env) (uint16, []rp.Field) {
 		return rp.TChatSend, []rp.Field{rp.FS(rp.FData, fmt.Sprintf("probe chat %d", k))}
 	}},
+	{Name: "send-private-chat-line", Needs: []int{rp.PSendChat}, Silent: true, Build: func(k int, e *c05Env) (uint16, []rp.Field) {
+		return rp.TChatSend, []rp.Field{rp.FS(rp.FData, fmt.Sprintf("probe private chat %d", k)), rp.F(rp.FChatID, e.ChatID)}
+	}},
+	{Name: "send-emote", Needs: []int{rp.PSendChat}, Silent: true, Build: func(k int, e *c05Env) (uint16, []rp.Field) {
+		return rp.TChatSend, []rp.Field{rp.FS(rp.FData, fmt.Sprintf("probe emote %d", k)), rp.F16(rp.FChatOptions, 1)}
+	}},
 	{Name: "open-private-chat", Needs: []int{rp.POpenChat}, Build: func(k int, e *c05Env) (uint16, []rp.Field) {
 		return rp.TInviteNewChat, []rp.Field{rp.F16(rp.FUserID, e.BystanderID)}
 	}},
